@@ -99,6 +99,66 @@ impl Log {
 const CHARSET: &str = "qpzry9x8gf2tvdw0s3jn54khce6mua7l";
 const OUTSIDE: &str = "bio1-Q";
 
+fn polymod(v: &[u8]) -> u32 {
+    const GEN: [u32; 5] = [0x3b6a57b2, 0x26508e6d, 0x1ea119fa, 0x3d4233dd, 0x2a1462b3];
+    let mut chk: u32 = 1;
+    for x in v {
+        let top = chk >> 25;
+        chk = ((chk & 0x1ffffff) << 5) ^ (*x as u32);
+        for (i, g) in GEN.iter().enumerate() {
+            if (top >> i) & 1 == 1 {
+                chk ^= g;
+            }
+        }
+    }
+    chk
+}
+
+/// Correctly checksummed strings that no encoder writes, derived from the valid lower-case address `s` of a codec with
+/// checksum constant `konst`: the last data group with a padding bit set (when the byte length leaves padding bits), and a
+/// superfluous all-zero padding group appended. They differ from `s` in more than one character (the checksum is recomputed).
+fn noncanonical_padding(s: &str, konst: u32) -> Vec<String> {
+    let cs: Vec<char> = CHARSET.chars().collect();
+    let sep = match s.rfind('1') {
+        Some(i) => i,
+        None => return vec![],
+    };
+    let (hrp, rest) = (&s[..sep], &s[sep + 1..]);
+    let vals: Option<Vec<u8>> = rest.chars().map(|c| cs.iter().position(|x| *x == c).map(|i| i as u8)).collect();
+    let vals = match vals {
+        Some(v) if v.len() > 6 => v,
+        _ => return vec![],
+    };
+    let data = &vals[..vals.len() - 6];
+    let mut variants: Vec<Vec<u8>> = vec![];
+    if (data.len() * 5) % 8 != 0 {
+        let mut d = data.to_vec();
+        *d.last_mut().unwrap() |= 1;
+        variants.push(d);
+    }
+    let mut d = data.to_vec();
+    d.push(0);
+    variants.push(d);
+    let mut out = vec![];
+    for d in variants {
+        let mut v: Vec<u8> = hrp.bytes().map(|b| b >> 5).collect();
+        v.push(0);
+        v.extend(hrp.bytes().map(|b| b & 31));
+        v.extend(&d);
+        v.extend([0u8; 6]);
+        let pm = polymod(&v) ^ konst;
+        let mut t = format!("{hrp}1");
+        for x in d.iter() {
+            t.push(cs[*x as usize]);
+        }
+        for i in 0..6 {
+            t.push(cs[((pm >> (5 * (5 - i))) & 31) as usize]);
+        }
+        out.push(t);
+    }
+    out
+}
+
 /// `level` 1 = quick (sampled corruptions), 2 = thorough (every position x every substitute)
 pub fn drive(n_prefixes: usize, level: usize, out: &str) -> ! {
     let f = std::io::BufWriter::new(std::fs::File::create(out).unwrap_or_else(|e| tool_error(&format!("{out}: {e}"))));
@@ -217,6 +277,12 @@ pub fn drive(n_prefixes: usize, level: usize, out: &str) -> ! {
                 log.validate(&c, kind, p, &format!("{s}q"));
                 log.validate(&c, kind, p, "");
                 log.validate(&c, kind, p, &s[p.len() + 1..]);
+            }
+            // correctly checksummed strings with non-canonical padding (validate only: if accepted, returned unchanged)
+            for s in addrs.iter().filter(|s| !s.chars().any(|ch| ch.is_ascii_uppercase())) {
+                for t in noncanonical_padding(s, if kind == "bech32m" { 0x2bc830a3 } else { 1 }) {
+                    log.validate(&c, kind, p, &t);
+                }
             }
         }
     }
